@@ -43,6 +43,8 @@ def pool_map(fn, jobs):
     else:
         with multiprocessing.Pool(n) as pool:
             res = pool.map(fn, jobs, chunksize=max(1, len(jobs) // (n * 4)))
+            pool.close()
+            pool.join()             # let the workers exit normally (a coverage measurement of /repo flushes its data then)
     for r, j in zip(res, jobs):
         if isinstance(r, dict) and isinstance(j, tuple) and len(j) == 2:
             try:
@@ -487,7 +489,8 @@ def _c14_worker(job):
             l = G.gen_lru(rng)
             for op, a in ((20, [l]), (21, [l]), (22, [l]), (23, [l]), (24, [99, [l]]), (27, [99, [l], 3, None]),
                           (28, [99, [l]]), (29, [99, [l]]), (30, [99, [l], 0, 0, 0]), (30, [99, [l], 1, 1, 1]),
-                          (31, [99, [l], 0, 0, 1, None]), (32, [1, 99, [l]]), (33, [l, 1, 1, 1]),
+                          (31, [99, [l], 0, 0, 1, None]), (31, [99, [l], 1, 1, 2, None]), (32, [1, 99, [l]]), (32, [0, 99, [l]]),
+                          (33, [l, 1, 1, 1]),
                           (26, [99, [l], 2, None, 0])):
                 s.do(op, a)
         # the same queries on an index reopened with FEWER rules than its anchors (stale rule flags in the trie)
